@@ -311,6 +311,42 @@ func gatedInformer(res *hx.Result, out *recorder, name string, mk func() informe
 	res.Case(map[string]interface{}{"kind": "informer-gated", "informer": name}, true)
 }
 
+// ---------------------------------------------------------------- lifecycle: consensus never ready
+// Cluster.ready() gives up after ReadyTimeout and shuts the peer down; the peer must then really stop
+// (Done() closed) and a concurrent Shutdown() call must return.
+func lifecycleReadyTimeout(res *hx.Result, out *recorder) {
+	mark("lifecycle:ready-timeout")
+	old := ipfscluster.ReadyTimeout
+	ipfscluster.ReadyTimeout = 300 * time.Millisecond
+	defer func() { ipfscluster.ReadyTimeout = old }()
+	r, err := rig.NewRig(rig.Opts{NeverReady: true})
+	if err != nil {
+		res.Infra("rig: %v", err)
+		return
+	}
+	x := &rec{Kind: "lifecycle", Scenario: "ready-timeout"}
+	select {
+	case <-r.Cluster.Done():
+		x.Result = "done"
+	case <-time.After(10 * time.Second):
+		x.Panic = "deadlock: the peer gave up waiting for consensus but never finished shutting down (Done() not closed after 10s)"
+	}
+	if x.Panic == "" {
+		fin := make(chan struct{})
+		go func() { r.Cluster.Shutdown(context.Background()); close(fin) }()
+		select {
+		case <-fin:
+		case <-time.After(10 * time.Second):
+			x.Panic = "deadlock: Shutdown() called after the ready timeout never returned"
+		}
+	}
+	if x.Panic == "" {
+		r.Host.Close()
+	}
+	out.put(x)
+	res.Case(map[string]interface{}{"kind": "lifecycle", "scenario": "ready-timeout"}, true)
+}
+
 // ---------------------------------------------------------------- free-running: alerts
 func stressAlerts(res *hx.Result, out *recorder, rng *rand.Rand, total int) {
 	mark("alerts-free")
@@ -725,6 +761,7 @@ func TestDriver(t *testing.T) {
 		i, _ := numpin.NewInformer(c)
 		return i
 	}
+	lifecycleReadyTimeout(res, out)
 	gatedInformer(res, out, "disk", mkDisk, func(f func(string)) { disk.VerifGate = f })
 	gatedInformer(res, out, "numpin", mkNum, func(f func(string)) { numpin.VerifGate = f })
 	for i := 0; i < rounds; i++ {
